@@ -23,7 +23,8 @@ def history(rng, nops, U):
         elif r < 0.84: sc.append("getf %d %d" % (h, rng.randrange(U + 1)))
         elif r < 0.88: sc.append("getr %d %d" % (h, rng.randrange(U + 1)))
         elif r < 0.91: sc.append(rng.choice(["cf %d %d", "cr %d %d"]) % (h, rng.randrange(U + 1)))
-        elif r < 0.95: sc.append("range %d %d" % (h, rng.randrange(-1, 4)))
+        elif r < 0.93: sc.append("range %d %d" % (h, rng.randrange(-1, 4)))
+        elif r < 0.96: sc.append("rangemut %d %d" % (h, rng.randrange(U)))   # a callback that removes a pair during the iteration
         else: sc.append("len %d" % h)
         for g in live: sc.append("obs %d %d" % (g, U))
     return sc
